@@ -32,6 +32,11 @@ type Result struct {
 	Labels      map[string]int // classification counters
 	NonTrivial  bool
 	Unspecified int
+	// Evals, when > 0, is the number of executions this case stands for (enumerations
+	// inside one generated case); the case then counts Evals evaluations instead of 1.
+	Evals int
+	// NTKeys, when set, are the identities of the distinct non-trivial sub-cases.
+	NTKeys []string
 }
 
 func NewResult() *Result { return &Result{Labels: map[string]int{}} }
